@@ -597,29 +597,46 @@ func TestC18_Pairs(t *testing.T) {
 	if err := haveBins(); err != nil {
 		t.Fatalf("INFRA: %v", err)
 	}
-	ev := NewEv(t, "C18", "pairs", "pairs of real builds of the shipped tree whose command lines differ in exactly one option (mode, ABI, AppArmor version, distribution, full) - about 330 pairs in thorough, a seeded sample of 12 covering every option in quick; oracle: line-level diff of .build/apparmor.d (LCS per file) and the file-set difference; every differing line or file must fall in a class the changed option governs, decided by an independent tokenizer plus the source tree: mode -> block headers equal but for flags; ABI -> the abi declaration, an AppArmor-4-only rule vs the same text commented out, lines guarded by abiN, overwrite renames and disable/ links; version -> lines guarded by apparmorX.Y, the documented configure additions/removals; distribution -> lines guarded by a distribution or family, files governed by the ignore lists / configure overlay (per the prepare model), header flags of manifest files; full -> exec mode (pu|u)x <-> px on a file rule without target, the _full profiles, the @{p_systemd*} lines, the gstreamer line. Non-trivial: a pair with >= 1 differing line; distinct by (option, file)")
+	ev := NewEv(t, "C18", "pairs", "pairs of real builds of the shipped tree whose command lines differ in exactly one option (mode, ABI, AppArmor version, distribution, full) - about 330 pairs in thorough, 40 in quick (all 10 distribution pairs at the default ABI / version plus a seeded sample of 30 covering every option); oracle: line-level diff of .build/apparmor.d (LCS per file) and the file-set difference; every differing line or file must fall in a class the changed option governs, decided by an independent tokenizer plus the source tree: mode -> block headers equal but for flags; ABI -> the abi declaration, an AppArmor-4-only rule vs the same text commented out, lines guarded by abiN, overwrite renames and disable/ links; version -> lines guarded by apparmorX.Y, the documented configure additions/removals; distribution -> lines guarded by a distribution or family, files governed by the ignore lists / configure overlay (per the prepare model), header flags of manifest files; full -> exec mode (pu|u)x <-> px on a file rule without target, the _full profiles, the @{p_systemd*} lines, the gstreamer line. Non-trivial: a pair with >= 1 differing line; distinct by (option, file)")
 	all := c18Pairs()
 	var pairs []C18Pair
 	if isThorough() {
 		pairs = all
 		ev.Exhaustive = true
 	} else {
-		// seeded sample covering each axis
+		// a structured sample that re-uses builds: every distribution against every other at the
+		// default ABI / version (10 pairs over 5 builds), and seeded picks on the other options
+		// and on the distribution option at the remaining ABI / version pairs
+		for i, d1 := range allDists {
+			for _, d2 := range allDists[i+1:] {
+				pairs = append(pairs, C18Pair{Config{Dist: d1, ABI: 4, Version: "4.1"}, Config{Dist: d2, ABI: 4, Version: "4.1"}})
+			}
+		}
 		byAxis := map[string][]C18Pair{}
+		have := map[string]bool{}
+		for _, p := range pairs {
+			have[p.A.String()+"|"+p.B.String()] = true
+		}
 		for _, p := range all {
 			byAxis[axisOf(p)] = append(byAxis[axisOf(p)], p)
 		}
-		want := map[string]int{"mode": 3, "abi": 2, "version": 2, "dist": 3, "full": 2}
+		want := map[string]int{"mode": 6, "abi": 5, "version": 6, "dist": 8, "full": 5}
 		seed := seedInt()
 		for _, ax := range []string{"mode", "abi", "version", "dist", "full"} {
 			l := byAxis[ax]
-			for i := 0; i < want[ax] && len(l) > 0; i++ {
-				pairs = append(pairs, l[(seed*7+i*13+len(ax))%len(l)])
+			for i, n := 0, 0; n < want[ax] && i < len(l); i++ {
+				p := l[(seed*7+i*13+len(ax))%len(l)]
+				if have[p.A.String()+"|"+p.B.String()] {
+					continue
+				}
+				have[p.A.String()+"|"+p.B.String()] = true
+				pairs = append(pairs, p)
+				n++
 			}
 		}
 	}
 	var mu sync.Mutex
-	parallel(len(pairs), 6, func(i int) {
+	parallel(len(pairs), 10, func(i int) {
 		p := pairs[i]
 		probs, stats, err := c18Compare(p)
 		mu.Lock()
